@@ -825,6 +825,8 @@ def e2e_case(ctx, recorder, form, expr, clo, loc, glo, label):
             if cause == 'NameError':
                 ctx.count('e2e:loud:ExprEvalError(NameError)'); return None      # loud; e.g. a lambda body cannot see eval's locals
             return {'what': 'Pony fails to evaluate an expression Python evaluates', 'python': typed(exp[1]), 'pony': str(e)[:200]}
+        smp = ctx.extra.setdefault('e2e_loud_samples', {}).setdefault(type(e).__name__, [])
+        if len(smp) < 4: smp.append({'form': form, 'expr': expr, 'msg': str(e)[:160]})
         if not recorder:
             ctx.count('e2e:loud:' + type(e).__name__); return None
         ctx.count('e2e:translation-error-after-extraction:' + type(e).__name__)
